@@ -17,11 +17,15 @@ EXPLANATION = (
     "to Clock::step_clock; change_frequency(target) on the other branch gets a target clamped to +-max_steer. "
     "SERVO-4: demobilize takes the filter by value, reaches at most one set_frequency call, always through "
     "change_frequency (the clamp); set_forced_port_state passes the old filter to demobilize and keeps no copy "
-    "(also W-DEMOB compile-fail witness in the thorough tier). SERVO-5: BasicFilter's clock calls are enumerated; "
-    "for it only the who-may-call clause is claimed."
+    "(also the W-DEMOB compile-fail witness). SERVO-5: BasicFilter's clock calls are enumerated. SERVO-6: a Kalman "
+    "servo that never received a sync/delay offset sample cannot command the frequency (ensure_freq_init only under "
+    "an offset sample; set_frequency only under cur_frequency = Some; no other writer makes it Some). SERVO-7 "
+    "(finiteness, sanitizer dominance): every set_frequency / step_clock call of either filter has a constant "
+    "argument, an argument that is fixed-point Duration arithmetic only, or is reached only under an is_finite() "
+    "literal on the value the argument is computed from."
 )
-NOT_DECIDED = ("finiteness (NaN / infinity propagate through f64::clamp and the Kalman update; value-level) and the "
-               "numeric value of the bound check; BasicFilter bounds")
+NOT_DECIDED = ("the numerics behind the commands: whether the filter state itself stays finite, the value of the bound "
+               "check under f64 rounding (cur + (bound - cur) can exceed the bound by one ulp), the magnitude of a step")
 
 
 FLOAT_TO_DURATION = ("from_seconds",)
